@@ -48,7 +48,7 @@ RULE = {
 FAULT_KINDS = {
     "C04": ["platform_crypt_lacks_format", "cold_record", "rng_min", "rng_max", "cost_beyond_hard_limit", "legacy_below_min", "legacy_above_max", "policy_update"],
     "C08": ["platform_crypt_lacks_format", "cold_start", "subst", "delete", "dup", "insert", "truncate", "empty", "other_record", "other_scheme", "swap_fields", "nul", "nonascii",
-            "garbage", "numeric_alias", "respell", "as_bytes"],
+            "garbage", "numeric_alias", "respell", "unicode_case_alias", "binary_form", "as_bytes"],
     "C10": ["platform_crypt_lacks_format", "change_is_first_use_of_lazy_context", "restart_via_object", "using_raises", "invalid_item", "policy_file_missing", "policy_file_unreadable", "policy_file_read_error",
             "policy_file_truncated", "policy_file_wrong_section", "policy_file_not_utf8", "restart_via_dict", "restart_via_ini",
             "restart_via_file"],
@@ -101,7 +101,7 @@ C08_PALETTE = ["des_crypt", "bsdi_crypt", "md5_crypt", "apr_md5_crypt", "sha1_cr
 HEXLEN = {"hex_md5": 32, "nthash": 32, "hex_sha1": 40, "hex_sha256": 64, "hex_sha512": 128}
 PWS = ["pw", "secret", "Pw", "pässword", "p w", "x", "correct horse"]
 CATS = ["admin", "staff"]
-SUBST = ["$", ".", "/", "0", "A", "z", "=", ",", " ", "\x00", "é", "*"]
+SUBST = ["$", ".", "/", "0", "A", "z", "=", ",", " ", "\x00", "é", "*", "\n", "\r", "\t", "!", "+", "_", "-", "\u0660", "\uff11"]
 
 
 # =============================================================================================
@@ -959,6 +959,25 @@ def damage(h, kind, pos, byte, other):
         if h and all(ch in "0123456789abcdefABCDEF" for ch in h):
             return h.swapcase()
         return h
+    if kind == "unicode_case_alias":
+        # one or two ASCII letters are replaced by a non-ASCII character whose Unicode upper- / lower- / case-folded form is exactly
+        # those letters (ligature ff -> 'ff' / 'FF', long s -> 's' / 'S', KELVIN SIGN -> 'k', dotless i -> 'I', sharp s -> 'SS'):
+        # a reader that normalises case with str.upper() / lower() / casefold() or a Unicode-aware IGNORECASE pattern folds it back
+        pats = [("ff", "\ufb00"), ("fi", "\ufb01"), ("fl", "\ufb02"), ("ss", "\u00df"), ("st", "\ufb06"), ("s", "\u017f"), ("k", "\u212a"), ("i", "\u0131")]
+        hits = [(j, p_, r_) for p_, r_ in pats for j in range(n) if h[j:j + len(p_)].lower() == p_]
+        if not hits:
+            return h
+        j, p_, r_ = hits[(pos * 7 + (ord(byte[0]) if byte else 0)) % len(hits)]
+        return h[:j] + r_ + h[j + len(p_):]
+    if kind == "binary_form":
+        # the record's hexadecimal text replaced by the bytes it spells (what a BINARY column or a driver's "raw" mode hands over);
+        # returned as latin-1 text, handed over as bytes
+        try:
+            if h[:2] in ("0x", "0X"):
+                return bytes.fromhex(h[2:]).decode("latin-1")
+            return bytes.fromhex(h).decode("latin-1")
+        except ValueError:
+            return h
     if kind == "numeric_alias":
         # a decimal field is rewritten to a value that a sloppy reader may fold back onto the original: +1, or the original plus a
         # table / word size (53, 64, 256, 2^16, 2^32) -- modular indexing and integer wrap-around are the classic aliasing mistakes
@@ -979,6 +998,24 @@ def damage(h, kind, pos, byte, other):
         new = str(v + m_).rjust(b - a, "0")
         return h[:a] + new + h[b:]
     return h
+
+
+def _int_respellings(d):
+    """the string with every non-ASCII decimal digit written in ASCII and blanks next to a digit (a) dropped, (b) read as '0'"""
+    import unicodedata
+
+    t = "".join(str(unicodedata.decimal(ch)) if (not ch.isascii() and ch.isdecimal()) else ch for ch in d)
+
+    def near_digit(i_):
+        return (i_ > 0 and t[i_ - 1].isdigit()) or (i_ + 1 < len(t) and t[i_ + 1].isdigit())
+
+    def pad(i_, ch):
+        # blanks around a number, and a sign in front of it ("-0" is 0)
+        return (ch.isspace() and near_digit(i_)) or (ch in "+-" and i_ + 1 < len(t) and t[i_ + 1].isdigit() and (i_ == 0 or t[i_ - 1] in "$=,|{ "))
+
+    a = "".join(ch for i_, ch in enumerate(t) if not pad(i_, ch))
+    b = "".join("0" if pad(i_, ch) else ch for i_, ch in enumerate(t))
+    return [t, a, b]
 
 
 class _StorageRun:
@@ -1132,7 +1169,9 @@ class _StorageRun:
         H = self.handlers[S]
         pw = rec["pw"]
         arg = d
-        if as_bytes:
+        if kind == "binary_form" and d != rec["hash"] and all(ord(ch) < 256 for ch in d):
+            arg = d.encode("latin-1")
+        elif as_bytes:
             arg = d.encode("utf-8")
             ctx.fault("as_bytes")
         attrs = {"scheme": S, "fault": kind}
@@ -1182,6 +1221,21 @@ class _StorageRun:
                               lambda: f"{d!r} (damaged {S} record of {pw!r}) verified through {via}", **attrs)
                     continue
                 ex = self.extract(S, d)
+                if S == "scram":
+                    # (an algorithm listed twice: the later entry is the one the record means -- a mislabelled pair that a genuine
+                    #  later pair of the same name overrides is a knocked-out pair like any other, see below)
+                    from simkit.refmodels.extract import scram_full
+
+                    full0 = scram_full(rec["hash"])
+                    fd = scram_full(d)
+                    if full0 is not None and fd is not None and fd[:2] == full0[:2]:
+                        last = {}
+                        for part in d.split("$")[4].split(","):
+                            last[part.partition("=")[0]] = part
+                        orig = set(rec["hash"].split("$")[4].split(","))
+                        if last and all(v in orig for v in last.values()):
+                            ctx.probe("scram_duplicate_algorithm_last_wins")
+                            continue
                 if S == "scram" and ex is not None and ex != rec["ex"]:
                     # a scram record lists several digests of the same password and the default verify() uses the first usable one
                     # (documented): damage that only knocks out ANOTHER pair leaves an intact, genuine digest doing the verifying
@@ -1191,9 +1245,18 @@ class _StorageRun:
                     if full0 is not None and ex[1] == rec["ex"][1] and ex[2] == rec["ex"][2] and ex[3] in full0[2]:
                         ctx.probe("scram_other_intact_digest_used")
                         continue
-                ctx.check(ex is not None and ex == rec["ex"], "C08", "altered-hash-verifies",
-                          lambda: f"{name}: original {rec['hash']!r} damaged ({kind}) to {d!r} still verifies {pw!r}; "
-                                  f"decoded original {rec['ex']} damaged {ex}", **attrs)
+
+                if not (ex is not None and ex == rec["ex"]):
+                    # root-cause attribution (for the signature): does the string become the original once every decimal field is
+                    # re-spelled the way Python's int() reads it (blanks of any kind around it, non-ASCII decimal digits)?
+                    cause = "other"
+                    for nd in _int_respellings(d):
+                        if nd != d and self.extract(S, nd) == rec["ex"]:
+                            cause = "decimal-field-read-with-int-leniency"
+                            break
+                    ctx.fail("C08", "altered-hash-verifies",
+                             f"{name}: original {rec['hash']!r} damaged ({kind}) to {d!r} still verifies {pw!r}; "
+                             f"decoded original {rec['ex']} damaged {ex}", cause=cause, **attrs)
                 ctx.probe("respelling_accepted")
             elif not changed and name == "handler.verify":
                 ctx.check(verified, "C08", "intact-record-rejected", f"{d!r} / {pw!r} -> {v!r}", **attrs)
